@@ -189,7 +189,7 @@ def run(prog: Program, ctx: Ctx) -> None:  # noqa: PLR0912,PLR0915
 
     ic = prog.function(f"{I}.Inspector.inspect_class")
     made: list = []
-    it.class_stubs["_griffe.models.Class"] = lambda _i, **k: (made.append(k), Obj(prog.cls("_griffe.models.Class"), dict(k)))[1]
+    it.class_stubs["_griffe.models.Class"] = lambda _i, **k: (made.append(k), Obj(prog.cls("_griffe.models.Class"), {"parent": None, **k}))[1]
     it.stubs[f"{I}.Inspector._get_linenos"] = lambda _i, *_a, **_k: (1, 2)
     it.stubs[f"{I}.Inspector._get_docstring"] = lambda _i, *_a, **_k: None
     it.stubs[f"{I}.Inspector.generic_inspect"] = lambda _i, *_a, **_k: None
